@@ -16,6 +16,7 @@ import (
 	"os"
 	"sort"
 	"strings"
+	"sync"
 	"time"
 
 	"github.com/gcash/bchd/blockchain"
@@ -25,6 +26,7 @@ import (
 	"github.com/gcash/bchutil/bloom"
 	"github.com/gcash/bchutil/merkleblock"
 
+	"verif/harness/cmd/c12/plainrun"
 	"verif/harness/cmd/c12/pmtref"
 	"verif/harness/internal/vh"
 )
@@ -295,6 +297,8 @@ type built struct {
 	Header  []byte
 	Indices []uint32
 	msg     *wire.MsgMerkleBlock
+	idx     []uint32 // the returned index list itself (Indices is the copy taken when it was returned)
+	input   string   // how the selection was handed over when that is not the usual way (nil set, unloaded filter, ...)
 }
 
 func observe(f func() (*wire.MsgMerkleBlock, []uint32)) (o built) {
@@ -304,7 +308,7 @@ func observe(f func() (*wire.MsgMerkleBlock, []uint32)) (o built) {
 		}
 	}()
 	m, idx := f()
-	o.msg = m
+	o.msg, o.idx = m, idx
 	o.Count = m.Transactions
 	for _, h := range m.Hashes {
 		o.Hashes = append(o.Hashes, pmtref.Hash(*h))
@@ -323,6 +327,8 @@ type extracted struct {
 	Root    pmtref.Hash
 	Items   []uint32
 	Matches []pmtref.Hash
+	pb      *merkleblock.PartialBlock
+	rootPtr *chainhash.Hash
 }
 
 func extract(m *wire.MsgMerkleBlock) (o extracted) {
@@ -333,6 +339,7 @@ func extract(m *wire.MsgMerkleBlock) (o extracted) {
 	}()
 	pb := merkleblock.NewMerkleBlockFromMsg(*m)
 	root := pb.ExtractMatches()
+	o.pb, o.rootPtr = pb, root
 	o.Bad = pb.BadTree()
 	if root != nil {
 		o.OK = true
@@ -368,6 +375,9 @@ func replayOf(bk *blk, how string, sel []bool, o built) map[string]interface{} {
 		"note": "block = makeBlock(block_seed, n) of harness/cmd/c11 (n synthetic transactions; block_kind dep:<order>:<chain> = makeDepBlock, filter = the watched hash with BloomUpdateAll); chosen[i]=1: transaction i is in the set / matched by the filter"}
 	if len(bk.leaves) <= 16 {
 		m["txids"] = hexHashes(bk.leaves)
+	}
+	if o.input != "" {
+		m["input"] = o.input
 	}
 	if o.Panic != "" {
 		m["panic"] = o.Panic
@@ -423,6 +433,7 @@ func checkBuilt(bk *blk, how string, sel []bool, o built) {
 	}
 	// round trip through extraction
 	e := extract(o.msg)
+	keepExtracted(bk, how, sel, o, e)
 	switch {
 	case e.Panic != "":
 		rep.Violate("C11:roundtrip:panic", "ExtractMatches panicked on a built message", rp())
@@ -481,7 +492,105 @@ func byTxnSet(bk *blk, sel []bool, r *vh.RNG, noise bool) (built, []pmtref.Hash)
 		}
 	}
 	o := observe(func() (*wire.MsgMerkleBlock, []uint32) { return merkleblock.NewMerkleBlockWithTxnSet(bk.b, ptrs(set)) })
+	noteCall(bk, "NewMerkleBlockWithTxnSet", sel)
 	return o, set
+}
+
+// emptyInputs: the empty selection handed over in every way the API allows.  Transaction set: nil, an empty
+// literal, an empty slice with capacity (the model cannot tell them apart, so the builder must not);
+// filter: not loaded (LoadFilter(nil)), unloaded after use - each of them matches nothing (C09) - through
+// both filter-driven builders.  Every result must be the canonical
+// message of the empty subset with an empty index list.
+func emptyInputs(bk *blk) {
+	none := make([]bool, len(bk.leaves))
+	sets := []struct {
+		name string
+		set  []*chainhash.Hash
+	}{{"txnSet = nil", nil}, {"txnSet = []*chainhash.Hash{}", []*chainhash.Hash{}}, {"txnSet = make([]*chainhash.Hash, 0, 8)", make([]*chainhash.Hash, 0, 8)}}
+	for _, x := range sets {
+		set := x.set
+		o := observe(func() (*wire.MsgMerkleBlock, []uint32) { return merkleblock.NewMerkleBlockWithTxnSet(bk.b, set) })
+		o.input = x.name
+		noteCall(bk, "NewMerkleBlockWithTxnSet", none)
+		rep.Evaluations++
+		rep.Histogram["empty_input:"+x.name]++
+		checkBuilt(bk, "NewMerkleBlockWithTxnSet", none, o)
+		keep(bk, "NewMerkleBlockWithTxnSet", none, o)
+	}
+	filters := []struct {
+		name string
+		mk   func() *bloom.Filter
+	}{
+		{"filter = bloom.LoadFilter(nil) (not loaded)", func() *bloom.Filter { return bloom.LoadFilter(nil) }},
+		{"filter = NewFilter(..) loaded with every txid, then Unload()", func() *bloom.Filter {
+			all := make([]bool, len(bk.leaves))
+			for i := range all {
+				all[i] = true
+			}
+			f := newFilter(bk, all, 7)
+			f.Unload()
+			return f
+		}},
+	}
+	for _, x := range filters {
+		if p, _ := vh.Catch(func() {
+			for i, m := range bloom.GetMatchedIndices(bk.b, x.mk()) {
+				if m {
+					r := replayOf(bk, "GetMatchedIndices", none, built{Panic: "n/a", input: x.name})
+					r["matched_index"] = i
+					rep.Violate("C11:dep:empty_filter_matches", "a filter that is not loaded matches a transaction (C09/C10)", r)
+				}
+			}
+		}); p {
+			continue // outside C11 (C08's business); the builders would panic in the same call
+		}
+		a := observe(func() (*wire.MsgMerkleBlock, []uint32) { return merkleblock.NewMerkleBlockWithFilter(bk.b, x.mk()) })
+		noteCall(bk, "NewMerkleBlockWithFilter", none)
+		b := observe(func() (*wire.MsgMerkleBlock, []uint32) { return bloom.NewMerkleBlock(bk.b, x.mk()) })
+		noteCall(bk, "bloom.NewMerkleBlock", none)
+		a.input, b.input = x.name, x.name
+		rep.Evaluations += 2
+		rep.Histogram["empty_input:"+strings.SplitN(x.name, " (", 2)[0]] += 2
+		checkBuilt(bk, "NewMerkleBlockWithFilter", none, a)
+		checkBuilt(bk, "bloom.NewMerkleBlock", none, b)
+		if a.Panic == "" && b.Panic == "" && !sameBuilt(a, b) {
+			rep.Violate("C11:builders_agree", "bloom.NewMerkleBlock and merkleblock.NewMerkleBlockWithFilter differ for the same block and filter", replayOf(bk, "bloom.NewMerkleBlock", none, b))
+		}
+	}
+}
+
+// fullFilter: a filter whose bits are all set, and a loaded filter with an empty bit array (which matches
+// everything, as in the reference client: bloom.Filter.matches), select every transaction.
+func fullFilter(bk *blk) {
+	all := make([]bool, len(bk.leaves))
+	for i := range all {
+		all[i] = true
+	}
+	filters := []struct {
+		name string
+		mk   func() *bloom.Filter
+	}{
+		{"filter = 16 bytes 0xff, 3 hash functions (matches everything)", func() *bloom.Filter {
+			return bloom.LoadFilter(&wire.MsgFilterLoad{Filter: bytes.Repeat([]byte{0xff}, 16), HashFuncs: 3, Tweak: 5, Flags: wire.BloomUpdateNone})
+		}},
+		{"filter = LoadFilter(filterload{Filter: {}, HashFuncs: 1}) (empty bit array: matches everything)", func() *bloom.Filter {
+			return bloom.LoadFilter(&wire.MsgFilterLoad{Filter: []byte{}, HashFuncs: 1, Flags: wire.BloomUpdateNone})
+		}},
+		{"filter = LoadFilter(filterload{Filter: nil, HashFuncs: 0}) (nil bit array: matches everything)", func() *bloom.Filter {
+			return bloom.LoadFilter(&wire.MsgFilterLoad{})
+		}},
+	}
+	for _, x := range filters {
+		a := observe(func() (*wire.MsgMerkleBlock, []uint32) { return merkleblock.NewMerkleBlockWithFilter(bk.b, x.mk()) })
+		noteCall(bk, "NewMerkleBlockWithFilter", all)
+		b := observe(func() (*wire.MsgMerkleBlock, []uint32) { return bloom.NewMerkleBlock(bk.b, x.mk()) })
+		noteCall(bk, "bloom.NewMerkleBlock", all)
+		a.input, b.input = x.name, x.name
+		rep.Evaluations += 2
+		rep.Histogram["full_filter"] += 2
+		checkBuilt(bk, "NewMerkleBlockWithFilter", all, a)
+		checkBuilt(bk, "bloom.NewMerkleBlock", all, b)
+	}
 }
 
 func newFilter(bk *blk, sel []bool, tweak uint32) *bloom.Filter {
@@ -511,7 +620,9 @@ func byFilter(bk *blk, sel []bool, tweak uint32) (mbRes, blRes built, matched []
 	mbRes = observe(func() (*wire.MsgMerkleBlock, []uint32) {
 		return merkleblock.NewMerkleBlockWithFilter(bk.b, newFilter(bk, sel, tweak))
 	})
+	noteCall(bk, "NewMerkleBlockWithFilter", matched)
 	blRes = observe(func() (*wire.MsgMerkleBlock, []uint32) { return bloom.NewMerkleBlock(bk.b, newFilter(bk, sel, tweak)) })
+	noteCall(bk, "bloom.NewMerkleBlock", matched)
 	return
 }
 
@@ -639,9 +750,21 @@ type kept struct {
 	how string
 	sel []bool
 	o   built
+	e   extracted // extraction results kept alive (only for keptExt)
 }
 
-var keptRing []kept
+// the first few results of the run are kept for good, the last few in a ring
+var keptPinned, keptRing []kept
+var keptExt []kept
+
+// lastCall describes the builder call made last (what an earlier result is re-read after)
+var lastCall struct {
+	bk  *blk
+	how string
+	sel []bool
+}
+
+func noteCall(bk *blk, how string, sel []bool) { lastCall.bk, lastCall.how, lastCall.sel = bk, how, sel }
 
 func unchanged(o built) bool {
 	m := o.msg
@@ -661,25 +784,94 @@ func unchanged(o built) bool {
 	return bytes.Equal(buf.Bytes(), o.Header)
 }
 
+func unchangedIdx(o built) bool {
+	if len(o.idx) != len(o.Indices) {
+		return false
+	}
+	for i := range o.idx {
+		if o.idx[i] != o.Indices[i] {
+			return false
+		}
+	}
+	return true
+}
+
+func laterOf(r map[string]interface{}) {
+	if lastCall.bk != nil {
+		r["later_block_seed"], r["later_n"], r["later_block_kind"], r["later_builder"], r["later_chosen"] = lastCall.bk.seed, len(lastCall.bk.leaves), lastCall.bk.kind, lastCall.how, selString(lastCall.sel)
+		r["history"] = "this builder call was made and its results were looked at (impl_*); then, among others, the later_* call was made; then the SAME returned message / index list / PartialBlock was read again"
+	}
+}
+
 func checkKept() {
-	for _, k := range keptRing {
-		if !unchanged(k.o) {
+	for _, ring := range [][]kept{keptPinned, keptRing} {
+		for _, k := range ring {
+			if !unchanged(k.o) {
+				r := replayOf(k.bk, k.how, k.sel, k.o)
+				r["now_flags"] = hex.EncodeToString(k.o.msg.Flags)
+				r["now_hash_count"] = len(k.o.msg.Hashes)
+				laterOf(r)
+				rep.Violate("C11:stable:"+k.how, "a message returned earlier is no longer what was returned (it changed while later messages were built)", r)
+			}
+			if !unchangedIdx(k.o) {
+				r := replayOf(k.bk, k.how, k.sel, k.o)
+				r["now_indices"] = append([]uint32(nil), k.o.idx...)
+				laterOf(r)
+				rep.Violate("C11:stable:indices:"+k.how, "an index list returned earlier is no longer what was returned (it changed while later messages were built)", r)
+			}
+		}
+	}
+	for _, k := range keptExt {
+		now := extracted{OK: true, Bad: k.e.pb.BadTree()}
+		if k.e.rootPtr != nil {
+			now.Root = pmtref.Hash(*k.e.rootPtr)
+		}
+		now.Items = append(now.Items, k.e.pb.GetItems()...)
+		for _, x := range k.e.pb.GetMatches() {
+			now.Matches = append(now.Matches, pmtref.Hash(*x))
+		}
+		same := now.Bad == k.e.Bad && now.Root == k.e.Root && len(now.Items) == len(k.e.Items) && len(now.Matches) == len(k.e.Matches)
+		for i := 0; same && i < len(now.Items); i++ {
+			same = now.Items[i] == k.e.Items[i] && now.Matches[i] == k.e.Matches[i]
+		}
+		if !same {
 			r := replayOf(k.bk, k.how, k.sel, k.o)
-			r["now_flags"] = hex.EncodeToString(k.o.msg.Flags)
-			r["now_hash_count"] = len(k.o.msg.Hashes)
-			rep.Violate("C11:stable:"+k.how, "a message returned earlier is no longer what was returned (it changed while later messages were built)", r)
+			r["extracted_items"], r["now_extracted_items"] = k.e.Items, now.Items
+			r["extracted_root"], r["now_extracted_root"] = hex.EncodeToString(k.e.Root[:]), hex.EncodeToString(now.Root[:])
+			laterOf(r)
+			rep.Violate("C11:stable:extracted", "what extraction of a built message returned (root, positions, ids) is no longer what it returned (it changed during later calls)", r)
 		}
 	}
 }
+
+var keptCalls int
 
 func keep(bk *blk, how string, sel []bool, o built) {
 	if o.Panic != "" {
 		return
 	}
-	keptRing = append(keptRing, kept{bk, how, append([]bool(nil), sel...), o})
+	k := kept{bk: bk, how: how, sel: append([]bool(nil), sel...), o: o}
+	keptCalls++
+	// pinned: the first six results of the run, and one result of every 997th call after that (at most 12)
+	if len(keptPinned) < 6 || (keptCalls%997 == 0 && len(keptPinned) < 12 && len(bk.leaves) <= 4096) {
+		keptPinned = append(keptPinned, k)
+		return
+	}
+	keptRing = append(keptRing, k)
 	if len(keptRing) > 6 {
 		keptRing = keptRing[len(keptRing)-6:]
 	}
+}
+
+func keepExtracted(bk *blk, how string, sel []bool, o built, e extracted) {
+	if e.Panic != "" || !e.OK || e.pb == nil || len(e.Items) == 0 || len(e.Items) > 4096 {
+		return
+	}
+	k := kept{bk: bk, how: how, sel: append([]bool(nil), sel...), o: o, e: e}
+	if len(keptExt) >= 8 {
+		keptExt = append(keptExt[:3:3], keptExt[len(keptExt)-4:]...) // the first three stay
+	}
+	keptExt = append(keptExt, k)
 }
 
 // checkBlockIntact: building must not write to the block it was given.
@@ -749,8 +941,25 @@ func runSubset(bk *blk, sel []bool, r *vh.RNG, corrSet, corrFilter bool, family 
 		r["merkleblock_indices"] = a.Indices
 		rep.Violate("C11:builders_agree", "bloom.NewMerkleBlock and merkleblock.NewMerkleBlockWithFilter differ for the same block and filter", r)
 	}
+	// the set-driven builder against the filter-driven ones when the filter matched exactly the chosen ids
+	if o.Panic == "" && a.Panic == "" && selString(sel) == selString(matched) && !sameBuilt(o, a) {
+		r := replayOf(bk, "NewMerkleBlockWithTxnSet", sel, o)
+		r["filter_builder_flags"] = hex.EncodeToString(a.Flags)
+		r["filter_builder_hash_count"] = len(a.Hashes)
+		r["filter_builder_indices"] = a.Indices
+		rep.Violate("C11:builders_agree:set_vs_filter", "NewMerkleBlockWithTxnSet and NewMerkleBlockWithFilter differ for the same block and the same chosen transactions", r)
+	}
 	if corrFilter {
 		addBuildFilter(bk, sel, matched, a, b)
+	}
+	switch chosenCount {
+	case 0:
+		emptyInputs(bk)
+		checkKept()
+	case n:
+		if n <= 4096 {
+			fullFilter(bk)
+		}
 	}
 }
 
@@ -991,6 +1200,293 @@ func runDep(bk *blk, r *vh.RNG, corr bool) {
 	}
 }
 
+// ---------- many calls in one process ----------
+// soak: `calls` builder calls on one small block, cycling through the three builders and all subsets, every
+// result compared with the reference results computed once per subset, the results of calls 0, 1, 2, 10,
+// 100, 1000, ... kept and read again at the end: counters that wrap, scratch areas that fill up, caches
+// that go stale after N calls.
+func soak(seed uint64, n, calls int, r *vh.RNG) {
+	bk := makeBlock(seed, n)
+	type want struct {
+		hashes []pmtref.Hash
+		flags  []byte
+		idx    []uint32
+		sel    []bool
+	}
+	wants := make([]want, 1<<uint(n))
+	for code := range wants {
+		sel := make([]bool, n)
+		for i := range sel {
+			sel[i] = code>>uint(i)&1 == 1
+		}
+		t := pmtref.Build(bk.leaves, sel)
+		wants[code] = want{t.Hashes(nil), pmtref.Pack(t.Flags(nil)), positions(sel), sel}
+	}
+	hows := []string{"NewMerkleBlockWithTxnSet", "NewMerkleBlockWithFilter", "bloom.NewMerkleBlock"}
+	var held []kept
+	var heldAt []int
+	next := 0
+	agree := func(o built, w want) bool {
+		ok := o.Panic == "" && int(o.Count) == n && bytes.Equal(o.Flags, w.flags) && len(o.Hashes) == len(w.hashes) && len(o.Indices) == len(w.idx) && bytes.Equal(o.Header, bk.header)
+		for i := 0; ok && i < len(w.hashes); i++ {
+			ok = o.Hashes[i] == w.hashes[i]
+		}
+		for i := 0; ok && i < len(w.idx); i++ {
+			ok = o.Indices[i] == w.idx[i]
+		}
+		return ok
+	}
+	for c := 0; c < calls; c++ {
+		code := (c*37 + c/3) % len(wants)
+		w := wants[code]
+		how := hows[c%3]
+		var o built
+		sel := w.sel
+		switch c % 3 {
+		case 0:
+			var set []pmtref.Hash
+			for i, x := range sel {
+				if x {
+					set = append(set, bk.leaves[i])
+				}
+			}
+			o = observe(func() (*wire.MsgMerkleBlock, []uint32) { return merkleblock.NewMerkleBlockWithTxnSet(bk.b, ptrs(set)) })
+		default:
+			// the filter may match more than the chosen ids: compare with the subset it matched
+			tweak := uint32(c)
+			mm := bloom.GetMatchedIndices(bk.b, newFilter(bk, sel, tweak))
+			mcode := 0
+			for i := 0; i < n; i++ {
+				if mm[i] {
+					mcode |= 1 << uint(i)
+				}
+			}
+			w = wants[mcode]
+			if c%3 == 1 {
+				o = observe(func() (*wire.MsgMerkleBlock, []uint32) {
+					return merkleblock.NewMerkleBlockWithFilter(bk.b, newFilter(bk, sel, tweak))
+				})
+			} else {
+				o = observe(func() (*wire.MsgMerkleBlock, []uint32) { return bloom.NewMerkleBlock(bk.b, newFilter(bk, sel, tweak)) })
+			}
+		}
+		noteCall(bk, how, w.sel)
+		rep.Evaluations++
+		if !agree(o, w) {
+			rp := replayOf(bk, how, w.sel, o)
+			rp["soak_calls"], rp["soak_n"] = c+1, n
+			rp["note"] = fmt.Sprintf("call number %d (from 0) of soak(block_seed, n, ..) of harness/cmd/c11: the three builders in turn over all subsets of one block; the result differs from the canonical message / chosen positions", c)
+			rep.Violate("C11:soak:"+how, "after many builder calls in one process a builder no longer returns the canonical message and the chosen positions", rp)
+			break
+		}
+		if c == next {
+			held = append(held, kept{bk: bk, how: how, sel: w.sel, o: o})
+			heldAt = append(heldAt, c)
+			switch {
+			case c < 2:
+				next = c + 1
+			case c == 2:
+				next = 10
+			default:
+				next = c * 10
+			}
+		}
+		if c%1024 == 1023 || c == calls-1 {
+			for i, k := range held {
+				if !unchanged(k.o) || !unchangedIdx(k.o) {
+					rp := replayOf(bk, k.how, k.sel, k.o)
+					rp["soak_calls"], rp["soak_n"], rp["kept_at_call"] = c+1, n, heldAt[i]
+					rp["now_indices"] = append([]uint32(nil), k.o.idx...)
+					rep.Violate("C11:stable:soak", "a message / index list returned earlier in a long run of builder calls is no longer what was returned", rp)
+				}
+			}
+		}
+	}
+	rep.Histogram["soak_calls"] += calls
+}
+
+// ---------- several goroutines ----------
+// goroutines: (a) relay - W goroutines take turns (one builder call each, strictly one after the other),
+// each keeps what it got and reads it again after all the others had their turns, and the main goroutine
+// reads everything at the end (storage shared through the package shows although there is no race);
+// (b) crowd - the same W goroutines build at the same time, each on its own block, `rounds` times, and
+// compare every result with the reference at once and again at the end.
+func goroutines(seed uint64, W, rounds int) {
+	type res struct {
+		bk  *blk
+		how string
+		sel []bool
+		o   built
+	}
+	var mu sync.Mutex
+	violate := func(key, what string, rp map[string]interface{}) {
+		mu.Lock()
+		defer mu.Unlock()
+		rep.Violate(key, what, rp)
+	}
+	hows := []string{"NewMerkleBlockWithTxnSet", "NewMerkleBlockWithFilter", "bloom.NewMerkleBlock"}
+	call := func(bk *blk, sel []bool, which int, tweak uint32) (built, []bool) {
+		switch which % 3 {
+		case 0:
+			var set []pmtref.Hash
+			for i, x := range sel {
+				if x {
+					set = append(set, bk.leaves[i])
+				}
+			}
+			return observe(func() (*wire.MsgMerkleBlock, []uint32) { return merkleblock.NewMerkleBlockWithTxnSet(bk.b, ptrs(set)) }), sel
+		case 1:
+			mm := bloom.GetMatchedIndices(bk.b, newFilter(bk, sel, tweak))
+			matched := make([]bool, len(sel))
+			for i := range matched {
+				matched[i] = mm[i]
+			}
+			return observe(func() (*wire.MsgMerkleBlock, []uint32) {
+				return merkleblock.NewMerkleBlockWithFilter(bk.b, newFilter(bk, sel, tweak))
+			}), matched
+		}
+		mm := bloom.GetMatchedIndices(bk.b, newFilter(bk, sel, tweak))
+		matched := make([]bool, len(sel))
+		for i := range matched {
+			matched[i] = mm[i]
+		}
+		return observe(func() (*wire.MsgMerkleBlock, []uint32) { return bloom.NewMerkleBlock(bk.b, newFilter(bk, sel, tweak)) }), matched
+	}
+	agree := func(x res) bool {
+		t := pmtref.Build(x.bk.leaves, x.sel)
+		wh, wf, wi := t.Hashes(nil), pmtref.Pack(t.Flags(nil)), positions(x.sel)
+		ok := x.o.Panic == "" && bytes.Equal(x.o.Flags, wf) && len(x.o.Hashes) == len(wh) && len(x.o.Indices) == len(wi) && bytes.Equal(x.o.Header, x.bk.header)
+		for i := 0; ok && i < len(wh); i++ {
+			ok = x.o.Hashes[i] == wh[i]
+		}
+		for i := 0; ok && i < len(wi); i++ {
+			ok = x.o.Indices[i] == wi[i]
+		}
+		return ok
+	}
+	reread := func(xs []res, who string) {
+		for _, x := range xs {
+			if x.o.Panic == "" && (!unchanged(x.o) || !unchangedIdx(x.o)) {
+				rp := replayOf(x.bk, x.how, x.sel, x.o)
+				rp["goroutines"], rp["workers"], rp["rounds"] = who, W, rounds
+				rp["now_indices"] = append([]uint32(nil), x.o.idx...)
+				violate("C11:stable:goroutines", "a message / index list returned to one goroutine changed while other goroutines (or the same one) built later messages", rp)
+			}
+		}
+	}
+	blocks := make([]*blk, W)
+	for w := range blocks {
+		blocks[w] = makeBlock(seed+uint64(w), 3+w%9)
+	}
+	// (a) relay
+	results := make([][]res, W)
+	turn := make([]chan bool, W+1)
+	for i := range turn {
+		turn[i] = make(chan bool, 1)
+	}
+	var wg sync.WaitGroup
+	for w := 0; w < W; w++ {
+		wg.Add(1)
+		go func(w int) {
+			defer wg.Done()
+			for round := 0; round < 3; round++ {
+				<-turn[w]
+				bk := blocks[w]
+				n := len(bk.leaves)
+				sel := make([]bool, n)
+				for i := range sel {
+					sel[i] = (i+w+round)%2 == 0 || (round == 2 && i == n-1)
+				}
+				o, matched := call(bk, sel, w+round, uint32(w*31+round))
+				x := res{bk, hows[(w+round)%3], matched, o}
+				if !agree(x) {
+					rp := replayOf(bk, x.how, matched, o)
+					rp["goroutines"], rp["workers"] = "relay", W
+					violate("C11:goroutines:"+x.how, "a builder called from a goroutine of its own (one call at a time) does not return the canonical message and the chosen positions", rp)
+				}
+				reread(results[w], "relay: read again by the goroutine that made the call, after the other goroutines had their turns")
+				results[w] = append(results[w], x)
+				turn[(w+1)%W] <- true
+			}
+		}(w)
+	}
+	turn[0] <- true
+	wg.Wait()
+	for w := 0; w < W; w++ {
+		reread(results[w], "relay: read by the main goroutine at the end")
+		mu.Lock()
+		rep.Evaluations += len(results[w])
+		rep.Histogram["goroutines:relay"] += len(results[w])
+		mu.Unlock()
+	}
+	// (b) crowd
+	start := make(chan bool)
+	crowd := make([][]res, W)
+	for w := 0; w < W; w++ {
+		wg.Add(1)
+		go func(w int) {
+			defer wg.Done()
+			<-start
+			bk := blocks[w]
+			n := len(bk.leaves)
+			for round := 0; round < rounds; round++ {
+				code := (round*7 + w) % (1 << uint(n))
+				sel := make([]bool, n)
+				for i := range sel {
+					sel[i] = code>>uint(i)&1 == 1
+				}
+				o, matched := call(bk, sel, w+round, uint32(w*131+round))
+				x := res{bk, hows[(w+round)%3], matched, o}
+				if !agree(x) {
+					rp := replayOf(bk, x.how, matched, o)
+					rp["goroutines"], rp["workers"], rp["rounds"] = "crowd", W, rounds
+					violate("C11:goroutines:"+x.how, "a builder called by several goroutines at once (each with its own block and filter) does not return the canonical message and the chosen positions", rp)
+				}
+				if round < 4 || round%64 == 0 {
+					crowd[w] = append(crowd[w], x)
+				}
+			}
+			reread(crowd[w], "crowd: read again by the goroutine that made the calls")
+		}(w)
+	}
+	close(start)
+	wg.Wait()
+	for w := 0; w < W; w++ {
+		reread(crowd[w], "crowd: read by the main goroutine at the end")
+	}
+	rep.Evaluations += W * rounds
+	rep.Histogram["goroutines:crowd"] += W * rounds
+}
+
+// ---------- the build that ships ----------
+// runPlain builds harness/cmd/c12/plain without -tags verif under a neutral module path and merges what it found.
+func runPlain(scale int) {
+	o, err := plainrun.Run(cfg.Out, "C11", cfg.Seed, scale)
+	if err != nil {
+		rep.Extra["plain_build"] = "NOT RUN: " + err.Error()
+		rep.Histogram["plain/not_run"]++
+		return
+	}
+	rep.Extra["plain_build"] = map[string]interface{}{"main_module": o.MainPath, "build_tags": o.Tags, "MaxTxnCount": o.MaxTxnStart, "executions": o.Executions,
+		"build_seconds": o.BuildSecs, "run_seconds": o.RunSecs}
+	rep.Evaluations += o.Executions
+	for k, v := range o.Histogram {
+		rep.Histogram["plain/"+k] += v
+	}
+	for _, v := range o.Violations {
+		rep.Violate(v.Key, v.What+" [build without -tags verif]", v.Replay)
+	}
+}
+
+// checkLimit: extract_build assumes n <= MaxTxnCount = wire.MaxBlockPayload()/61 (= 2098360); read at the start and at the end.
+func checkLimit(when string) {
+	now := merkleblock.MaxTxnCount
+	if now != wire.MaxBlockPayload()/61 || now != maxTxn || now != 2098360 {
+		rep.Violate("C11:dep:max_txn_count", "merkleblock.MaxTxnCount is not wire.MaxBlockPayload()/61 = 2098360 ("+when+")",
+			map[string]interface{}{"MaxTxnCount_now": now, "MaxTxnCount_at_start": maxTxn, "MaxBlockPayload": wire.MaxBlockPayload(), "when": when})
+	}
+}
+
 func subsetOf(n int, idx ...int) []bool {
 	sel := make([]bool, n)
 	for _, i := range idx {
@@ -1054,11 +1550,35 @@ func replay(path string) {
 			Kind   string `json:"block_kind"`
 			Mode   string `json:"leaf_mode"`
 			Chosen string `json:"chosen"`
+			Plain       bool   `json:"plain_build"`
+			SoakCalls   int    `json:"soak_calls"`
+			SoakN       int    `json:"soak_n"`
+			Goroutines  string `json:"goroutines"`
+			Workers     int    `json:"workers"`
+			Rounds      int    `json:"rounds"`
+			LaterSeed   uint64 `json:"later_block_seed"`
+			LaterN      int    `json:"later_n"`
+			LaterKind   string `json:"later_block_kind"`
+			LaterChosen string `json:"later_chosen"`
 		} `json:"input"`
 	}
 	b, err := os.ReadFile(path)
 	vh.Must(err)
 	vh.Must(json.Unmarshal(b, &rp))
+	switch {
+	case rp.Input.Plain:
+		runPlain(1)
+		return
+	case rp.Input.SoakCalls > 0:
+		soak(rp.Input.Seed, rp.Input.SoakN, rp.Input.SoakCalls, vh.NewRNG(1))
+		return
+	case rp.Input.Goroutines != "":
+		if rp.Input.Rounds == 0 {
+			rp.Input.Rounds = 200
+		}
+		goroutines(cfg.Seed, rp.Input.Workers, rp.Input.Rounds)
+		return
+	}
 	if strings.HasPrefix(rp.Input.Kind, "dep:") {
 		runDep(makeBlockKind(rp.Input.Seed, rp.Input.N, rp.Input.Kind), vh.NewRNG(1), false)
 		return
@@ -1083,6 +1603,27 @@ func replay(path string) {
 	}
 	runSubset(bk, other, vh.NewRNG(2), false, false, "replay")
 	checkKept()
+	// the call after which a kept result was found changed, when the replay names one; and a few other subsets
+	if rp.Input.LaterN > 0 && !strings.HasPrefix(rp.Input.LaterKind, "dep:") {
+		lb := makeBlockKind(rp.Input.LaterSeed, rp.Input.LaterN, rp.Input.LaterKind)
+		ls := make([]bool, rp.Input.LaterN)
+		for i := range ls {
+			ls[i] = i < len(rp.Input.LaterChosen) && rp.Input.LaterChosen[i] == '1'
+		}
+		runSubset(bk, sel, vh.NewRNG(1), false, false, "replay")
+		runSubset(lb, ls, vh.NewRNG(3), false, false, "replay")
+		checkKept()
+	}
+	n := len(sel)
+	full := make([]bool, n)
+	alt := make([]bool, n)
+	for i := range full {
+		full[i], alt[i] = true, i%2 == 1
+	}
+	for _, x := range [][]bool{sel, subsetOf(n), sel, full, sel, alt, subsetOf(n, n-1)} {
+		runSubset(bk, x, vh.NewRNG(4), false, false, "replay")
+	}
+	checkKept()
 }
 
 func main() {
@@ -1093,8 +1634,10 @@ func main() {
 	maxTxn = merkleblock.MaxTxnCount
 	rep.Extra["MaxTxnCount"] = maxTxn
 	rng := vh.NewRNG(cfg.Seed)
+	checkLimit("at the start of the run")
 	if cfg.Replay != "" {
 		replay(cfg.Replay)
+		checkLimit("at the end of the run")
 		vh.Must(rep.Write(cfg))
 		return
 	}
@@ -1316,6 +1859,25 @@ func main() {
 	}
 	checkKept()
 	lap("big_2^16")
+	// 4. many calls in one process; several goroutines; the build without -tags verif
+	switch {
+	case cfg.Search:
+		soak(cfg.Seed, 7, 400000, rng.Fork("soak"))
+		soak(cfg.Seed+1, 10, 100000, rng.Fork("soak2"))
+		goroutines(cfg.Seed, 16, 4000)
+		runPlain(8)
+	case cfg.Thorough():
+		soak(cfg.Seed, 7, 200000, rng.Fork("soak"))
+		goroutines(cfg.Seed, 16, 2000)
+		runPlain(4)
+	default:
+		soak(cfg.Seed, 7, 20000, rng.Fork("soak"))
+		goroutines(cfg.Seed, 8, 300)
+		runPlain(1)
+	}
+	checkKept()
+	checkLimit("at the end of the run")
+	lap("soak_goroutines_plain")
 
 	rep.Sample(map[string]interface{}{"family": "all_subsets", "what": fmt.Sprintf("every n <= %d with all 2^n subsets, three builders + extraction each", allMax)}, 4)
 	rep.Sample(map[string]interface{}{"family": "structured", "what": fmt.Sprintf("every n <= %d: empty, full, every singleton, first/last, right edge, {0,4}, sparse, dense", upper)}, 4)
@@ -1323,6 +1885,7 @@ func main() {
 	rep.Sample(map[string]interface{}{"family": "ctor", "what": "canonically ordered blocks (txids ascending after the first transaction, both as numbers and as byte strings), n <= 70 (140) and 255..1000: {0}, {0, n-1}, {0, ..}, random with and without 0, full, {n-1}, empty"}, 4)
 	rep.Sample(map[string]interface{}{"family": "crafted", "what": "ExtractMatches of canonical messages over hand-made transaction ids sharing a 1..29-byte prefix or suffix, or all but one byte: full, random, pairs"}, 4)
 	rep.Sample(map[string]interface{}{"family": "near_miss", "what": "transaction sets with ids one bit (every byte position) away from ids of the block; TxInSet against plain membership"}, 4)
+	rep.Sample(map[string]interface{}{"family": "kept / empty inputs / soak / goroutines / plain", "what": "returned messages, the returned index lists themselves and the PartialBlocks of the round trips kept (first few for good, last few in a ring) and read again after later calls; the empty selection as nil / empty / capacity-only set and as not-loaded / unloaded / empty filter, the all-ones filter; set-driven against filter-driven builder; 20000 (400000) calls on one block; 8-16 goroutines in turn and at once; a second program built without -tags verif in a neutral module"}, 8)
 	rep.Sample(map[string]interface{}{"family": "dependent", "what": "blocks with in-block spends (parent pays the watched script, child matched only through the outpoint, grandchild unmatched) in topological, reversed and shuffled order; updating filter through both filter-driven builders"}, 4)
 	if corr {
 		_, err := cases.Flush()
